@@ -209,6 +209,8 @@ class Loader(importlib.abc.MetaPathFinder, importlib.abc.Loader):
         self.entered = set()
         self.substituted = {}
         self.np = npx.NPX()
+        from . import pdx
+        self.pd = pdx.PDX()
         self.decimal = _DecimalMod()
         self.math = _MathMod()
         self.extra = {}          # per-module extra bindings set by harnesses: {module: {name: value}}
@@ -245,13 +247,15 @@ class Loader(importlib.abc.MetaPathFinder, importlib.abc.Loader):
         self._substitute(short, module)
 
     def _substitute(self, short, module):
-        import numpy, decimal, math
+        import numpy, decimal, math, pandas
         import scipy.spatial.transform as sst
         g = module.__dict__
         subs = []
         for name, val in list(g.items()):
             if val is numpy:
                 g[name] = self.np; subs.append(name)
+            elif val is pandas:
+                g[name] = self.pd; subs.append(name)
             elif val is sst.Rotation:
                 g[name] = rotation.Rotation; subs.append(name)
             elif val is decimal:
